@@ -16,8 +16,8 @@ pub enum Mode {
     C04,
 }
 
-pub const LANGS: &[&str] = &["mini", "indent", "heredoc", "glr", "tmpl", "arith", "json"];
-pub const LANG_W: &[u32] = &[22, 18, 15, 12, 8, 8, 7];
+pub const LANGS: &[&str] = &["mini", "indent", "heredoc", "glr", "tmpl", "arith", "json", "alias"];
+pub const LANG_W: &[u32] = &[20, 16, 13, 11, 8, 7, 7, 18];
 
 /// code regions of a tmpl document (reference scanner, independent of any tree): the text between
 /// "<%" / "<%=" and the next "%>" (or EOF)
@@ -315,7 +315,17 @@ pub fn run_session(ctx: &mut Ctx, t: &mut Tape, mode: Mode) {
                         };
                         let has_empty_range = cur_ranges.as_ref().map(|r| r.iter().any(|x| x.start_byte == x.end_byte)).unwrap_or(false);
                         let after_nt_extra = lname == "mini" && pending_edits.iter().zip(pending_texts.iter()).any(|(e, txt)| edit_follows_pragma(txt, e.start));
-                        let sig = if root_only && has_empty_range {
+                        let ends_only = inc_x.len() == scr_x.len() && {
+                            let mut a = inc_x.clone();
+                            for (k, n) in a.nodes.iter_mut().enumerate() {
+                                n.end = scr_x.nodes[k].end;
+                                n.ep = scr_x.nodes[k].ep;
+                            }
+                            a.nodes[0].start = scr_x.nodes[0].start;
+                            a.nodes[0].sp = scr_x.nodes[0].sp;
+                            xtree_diff(&a, &scr_x, EqOpts::FULL).is_none()
+                        };
+                        let sig = if (root_only || ends_only) && has_empty_range {
                             "C01:mismatch:root_extent_with_empty_ranges".to_string()
                         } else if has_reserved_word_as_word_token(lang, &inc_x, &text.bytes) {
                             "C01:mismatch:reserved_word_reused_as_word_token".to_string()
